@@ -148,6 +148,7 @@ pub fn spec_c12() -> PropSpec {
     pf.kinds[6] = 3;
     pf.kinds[7] = 2;
     pf.sat_pct = 30;
+    pf.maxplus_pct = 20;
     PropSpec {
         id: "C12",
         profile: pf,
@@ -341,6 +342,58 @@ impl Oracle for FallbackKf {
 
 pub const KF_STALE_DEPS: &str = "kf:cycle-finalized-with-unstable-dependencies";
 pub const KF_BACKDATE_CYCLE: &str = "kf:backdate-assertion-near-cycle";
+/// Listed finding cyc-kf4: the assertion in `CycleHeads::insert` ("Can't merge cycle heads ... with
+/// different iterations") fires on one thread: after an input change a nested cycle whose
+/// dependencies are value-dependent (guarded / saturating edges) is partly re-validated and partly
+/// re-executed, and a memo that still carries the head's previous iteration stamp is merged with a
+/// fresh one.
+pub const KF_MERGE_HEADS: &str = "kf:cycle-heads-merged-with-different-iterations";
+/// Listed finding cyc-kf5: a function P reads the fixpoint-initial value of a function H that is
+/// still executing (a cycle), but by the time H completes the cycle through P has disappeared
+/// (value-dependent dependencies: another member saturated and stopped calling P), so H completes
+/// without iterating. P's provisional memo stays in the table and is later accepted as final
+/// (H is final and its iteration stamp is still 0): P returns a value computed from H's initial
+/// value. Signature (body log + events of one step): P completed an execution that called H while
+/// H was on the stack, P did not run again in that step, and H was not iterated or finalized as a
+/// cycle head in that step.
+pub const KF_ABANDONED: &str = "kf:provisional-member-of-vanished-cycle-accepted-as-final";
+
+
+/// cyc-kf5 signature over a body log (any number of threads): some function completed an execution
+/// that called a function which was on the same thread's stack at that moment, did not run again,
+/// and that function was neither iterated nor finalized as a cycle head. `node_of_id` maps the `Id`
+/// bits of a `NodeKey` to its node.
+pub fn abandoned_member_signature(recs: &[Rec], node_of_id: &dyn Fn(u64) -> Option<u8>) -> bool {
+    let mut open: std::collections::BTreeMap<u32, Vec<u8>> = Default::default();
+    let mut pending: std::collections::BTreeMap<u8, BTreeSet<u8>> = Default::default();
+    let mut iterated: BTreeSet<u8> = BTreeSet::new();
+    for r in recs {
+        match r {
+            Rec::Start(LKey::Node(n, _), tid) => open.entry(*tid).or_default().push(*n),
+            Rec::End(rec) => {
+                if let LKey::Node(p, _) = rec.key {
+                    let st = open.entry(rec.tid).or_default();
+                    if let Some(pos) = st.iter().rposition(|x| *x == p) {
+                        st.truncate(pos);
+                    }
+                    let on_stack: BTreeSet<u8> = rec.calls.iter().filter_map(|c| if let LKey::Node(h, _) = c { Some(*h) } else { None }).filter(|h| *h != p && st.contains(h)).collect();
+                    if on_stack.is_empty() {
+                        pending.remove(&p);
+                    } else {
+                        pending.insert(p, on_stack);
+                    }
+                }
+            }
+            Rec::Ev(_, Ev::WillIterate(dk, _)) | Rec::Ev(_, Ev::DidFinalize(dk, _)) => {
+                if let Some(n) = node_of_id(dk.id) {
+                    iterated.insert(n);
+                }
+            }
+            _ => {}
+        }
+    }
+    pending.values().any(|hs| hs.iter().any(|h| !iterated.contains(h)))
+}
 
 pub struct CycKf {
     inner: Box<dyn Oracle>,
@@ -354,11 +407,16 @@ pub struct CycKf {
     unstable_finalizations: u32,
     finalizations: u32,
     backdate_hits: u32,
+    /// revision in which the backdate assertion (cyc-kf2) last fired: functions with cycle
+    /// recovery that were on the stack stay poisoned for the rest of that revision
+    backdate_rev: Option<u32>,
+    abandoned: bool,
+    abandoned_n: u32,
 }
 
 impl CycKf {
     pub fn new(inner: Box<dyn Oracle>) -> Self {
-        CycKf { inner, tainted: Default::default(), exec_rev: Default::default(), manifested: false, ever_cyclic: BTreeSet::new(), unstable_finalizations: 0, finalizations: 0, backdate_hits: 0 }
+        CycKf { inner, tainted: Default::default(), exec_rev: Default::default(), manifested: false, ever_cyclic: BTreeSet::new(), unstable_finalizations: 0, finalizations: 0, backdate_hits: 0, backdate_rev: None, abandoned: false, abandoned_n: 0 }
     }
 }
 
@@ -400,6 +458,13 @@ impl Oracle for CycKf {
             }
         }
         let mut ran: BTreeSet<u8> = BTreeSet::new();
+        if matches!(cx.res, StepRes::Got { real: Ok(_), .. }) {
+            let node_of = |id: u64| cx.ix.dk2l.iter().find(|(dk, _)| dk.id == id).and_then(|(_, l)| if let LKey::Node(n, _) = l { Some(*n) } else { None });
+            if abandoned_member_signature(cx.recs, &node_of) {
+                self.abandoned = true;
+                self.abandoned_n += 1;
+            }
+        }
         for r in cx.recs {
             if let Rec::Start(LKey::Node(n, _), _) = r {
                 ran.insert(*n);
@@ -435,12 +500,20 @@ impl Oracle for CycKf {
                 if stale_like && reaches_tainted {
                     x.rule = KF_STALE_DEPS.to_string();
                     self.manifested = true;
+                } else if x.rule == "value-mismatch" && self.abandoned {
+                    x.rule = KF_ABANDONED.to_string();
                 } else if x.rule == "unexpected-panic"
                     && x.detail.contains("returned the same value, but the previous execution changed at")
                     && near_cycle
                 {
                     x.rule = KF_BACKDATE_CYCLE.to_string();
                     self.backdate_hits += 1;
+                    self.backdate_rev = Some(cx.rev);
+                } else if x.rule == "unexpected-panic" && x.detail.contains("Can't merge cycle heads") && x.detail.contains("with different iterations") {
+                    x.rule = KF_MERGE_HEADS.to_string();
+                    self.backdate_rev = Some(cx.rev);
+                } else if x.rule == "unexpected-panic" && x.detail.contains("PropagatedPanic") && self.backdate_rev == Some(cx.rev) {
+                    x.rule = KF_BACKDATE_CYCLE.to_string();
                 }
             }
         }
@@ -460,6 +533,9 @@ impl Oracle for CycKf {
         }
         if self.manifested {
             l.push("kf-stale-deps-manifested");
+        }
+        if self.abandoned {
+            l.push("kf-provisional-member-of-vanished-cycle");
         }
         l
     }
